@@ -5,8 +5,13 @@ open Model
 open Common
 
 let upper z = let c = int_of_z z in if c >= 97 && c <= 122 then z_of_int (c - 32) else z
+let field3 l =
+  let rec skip k l = if k = 0 then l else match l with [] -> [] | x :: r -> if int_of_z x = 9 then skip (k - 1) r else skip k r in
+  let rec take l = match l with [] -> [] | x :: r -> if int_of_z x = 9 then [] else x :: take r in
+  take (skip 2 l)
 let ans mode l =
   if mode = "e" then l
+  else if mode = "f" then field3 l
   else (z_of_int 60 :: List.map upper l) @ (if mode = "c" then [z_of_int 62; z_of_int 13] else [z_of_int 62])
 
 let () =
